@@ -19,7 +19,7 @@ ID = "C15"
 LEVEL = "exploration"
 RULE = ("random queries from the C04 generator (plus property-path and aggregate/ORDER BY queries) over random small graphs; for each: (perm) the triple patterns of every BGP "
         "permuted, (swap) adjacent join operands and UNION branches swapped, (rename) variables renamed by a bijection, (spell) IRIs written with PREFIX/BASE instead of in "
-        "full, (init) initBindings vs an added VALUES row, (prep) one prepared query evaluated on A, B, A, A vs fresh parses, also after a failing evaluation, (store) the "
+        "full, (init) initBindings vs an added VALUES row, preferring terms that are falsy in Python, (initns) one text with undeclared prefixes under 4 interleaved prefix maps given as initNs or graph bindings vs the IRIs written out, (prep) one prepared query evaluated on A, B, A, A vs fresh parses, also after a failing evaluation, (store) the "
         "same data in Memory, SimpleMemory, AuditableStore(Memory) and a ReadOnlyGraphAggregate over a disjoint partition. Non-trivial: the base answer is non-empty. "
         "Distinct = distinct (query, data, relation).")
 ASSUMPTIONS = ["answers are compared as multisets of bindings (term keys; computed numerics by value)", "swap relation: operand pairs hit by the listed push-down finding of C04 (T2/T3) are not judged",
@@ -138,7 +138,7 @@ def gen_case(rng):
     elif k < 0.25:
         extra = "SELECT ?s (COUNT(?o) AS ?n) (MIN(?o) AS ?m) WHERE { ?s <urn:e:%s> ?o } GROUP BY ?s" % rng.choice("pq")
     return dict(kind="meta", where=where, text=extra, data=[[enc(x) for x in t] for t in triples], data2=[[enc(x) for x in t] for t in triples2],
-                rel=rng.choice(["perm", "swap", "rename", "spell", "init", "prep", "store", "store"]), rseed=rng.randrange(1 << 30))
+                rel=rng.choice(["perm", "swap", "rename", "spell", "init", "initns", "prep", "store", "store"]), rseed=rng.randrange(1 << 30))
 
 
 def query_text(where):
@@ -206,15 +206,46 @@ def run_case(case, st=None):
             cands = sorted(top_bgp_vars - nested)
             if not cands:
                 st.setdefault("_count", {})["init_no_candidate"] = 1; return None
-            v = rng.choice(cands)
-            vals = sorted({lkey(b[Variable(v)]): b[Variable(v)] for b in g.query(text).bindings if b.get(Variable(v)) is not None}.items(), key=str)
-            term = vals[rng.randrange(len(vals))][1] if vals and rng.random() < 0.8 else URIRef("urn:e:absent")
+            rows = g.query(text).bindings
+            def values_of(v): return sorted({lkey(b[Variable(v)]): b[Variable(v)] for b in rows if b.get(Variable(v)) is not None}.items(), key=str)
+            # prefer a variable that takes a term which is falsy in Python (0, "", false): the classic place for `if v:` mistakes
+            falsy_c = [v for v in cands if any(isinstance(t, Literal) and not t for _, t in values_of(v))]
+            v = rng.choice(falsy_c) if falsy_c and rng.random() < 0.6 else rng.choice(cands)
+            vals = values_of(v)
+            fv = [kv for kv in vals if isinstance(kv[1], Literal) and not kv[1]]
+            if fv and rng.random() < 0.6: vals = fv
+            term = vals[rng.randrange(len(vals))][1] if vals and rng.random() < 0.8 else rng.choice([URIRef("urn:e:absent"), Literal(False), Literal("")])
+            st["_count"] = dict(st.get("_count", {}), **({"init_falsy_term": 1} if (isinstance(term, Literal) and not term) else {}))
             if isinstance(term, BNode): return None
             a = ms(g.query(text, initBindings={v: term}))
             t2 = query_text(["group", where[1] + [["values", [v], [[enc(term)]]]]])
             b = ms(g.query(t2))
             if a != b:
                 return ("initBindings-vs-VALUES", "%s with initBindings {?%s: %s}\nvs. %s\nanswers differ: %s / %s" % (text, v, term.n3(), t2, [sorted(m) for m in (a - b)][:3], [sorted(m) for m in (b - a)][:3]))
+        elif rel == "initns":
+            # one text with undeclared prefixes, evaluated under different prefix maps (initNs or the graph's bindings), interleaved
+            t2 = text.replace("<urn:e:p>", "v:p").replace("<urn:e:a>", "w:a")      # for initNs
+            t3 = text.replace("<urn:e:p>", "v:p")                                     # for graph bindings (a namespace has one prefix there)
+            if t3 == text:
+                st.setdefault("_count", {})["initns_no_iri"] = 1; return None
+            extra = [(URIRef(str(s_).replace("urn:e:", "urn:f:")) if rng.random() < 0.5 else s_, URIRef("urn:f:p"), o_) for s_, p_, o_ in triples if str(p_) == "urn:e:p" and rng.random() < 0.7]
+            gx = build(triples + extra)
+            expect = {}
+            for ns in ("urn:e:", "urn:f:"):
+                expect[ns] = ms(gx.query(text.replace("<urn:e:p>", "<%sp>" % ns).replace("<urn:e:a>", "<%sa>" % ns)))
+                expect[ns, "b"] = ms(gx.query(text.replace("<urn:e:p>", "<%sp>" % ns)))
+            seq = [rng.choice(["urn:e:", "urn:f:"]) for _ in range(4)]
+            for i, ns in enumerate(seq):
+                if rng.random() < 0.5:
+                    got = ms(gx.query(t2, initNs={"v": ns, "w": ns})); how = "initNs"; exp = expect[ns]; tq = t2
+                else:
+                    gb = build(triples + extra); gb.bind("v", ns)
+                    got = ms(gb.query(t3)); how = "graph bindings"; exp = expect[ns, "b"]; tq = t3
+                st["prefix-map-evaluations"] = st.get("prefix-map-evaluations", 0) + 1
+                if got != exp:
+                    return ("prefix-map", "%s\nevaluation %d with the prefixes -> <%s> given by %s (sequence of maps %s) differs from the same query with the IRIs written out: only expected %s; only got %s" % (
+                        tq, i, ns, how, seq, [sorted(m) for m in (exp - got)][:2], [sorted(m) for m in (got - exp)][:2]))
+            if expect["urn:e:"] != expect["urn:f:"]: st["_count"] = dict(st.get("_count", {}), prefix_maps_distinguishable=1)
         elif rel == "prep":
             g2 = build([tuple(dec(x) for x in t) for t in case["data2"]])
             try:
@@ -262,7 +293,7 @@ def lane_meta(ctx):
 
 
 LANES = {"meta": dict(fn=lane_meta, quick=4000, thorough=100000)}
-REQUIRED_COUNTERS = {"any": ["cmp:rel:perm", "cmp:rel:swap", "cmp:rel:rename", "cmp:rel:spell", "cmp:rel:init", "cmp:rel:prep", "cmp:rel:store", "cmp:store:aggregate", "cmp:prepared-evaluations"]}
+REQUIRED_COUNTERS = {"any": ["cmp:rel:perm", "cmp:rel:swap", "cmp:rel:rename", "cmp:rel:spell", "cmp:rel:init", "cmp:rel:initns", "cmp:prefix-map-evaluations", "prefix_maps_distinguishable", "init_falsy_term", "cmp:rel:prep", "cmp:rel:store", "cmp:store:aggregate", "cmp:prepared-evaluations"]}
 
 
 def replay(w):
